@@ -171,7 +171,7 @@ fn verif_c10_bitflip_truncate() {
     let mut rec = Recorder::new("C10", "verif_c10_bitflip_truncate");
     let reg = registry(env.seed);
     let other = registry(env.seed ^ 0xdead_beef);
-    let cases = env.pick(48, 480);
+    let cases = env.pick(128, 640);
     let only = replay_case();
     for idx in 0..cases {
         if !env.mine(idx) || only.is_some_and(|c| c != idx) {
